@@ -233,7 +233,7 @@ def _loop_guard(ctx, c, s, fi, sim, world, cur, POP, STEP) -> None:
     okb = len(st) == 1 and st[0].term[2] == T.var("max_loop_iterations") and not st[0].guards
     c.check(okb, "R12", "mosaik.scenario.World.__init__", "max_loop_iterations-field", "World.__init__ does not store its max_loop_iterations argument unmodified", wi.loc)
     # nobody else writes it
-    for f2 in ctx.prog.all_functions():
+    for f2 in analysis_units(ctx.prog):
         if f2.qualname == wi.qualname:
             continue
         for e in summarise(ctx.prog, f2).of_kind("store"):
@@ -268,7 +268,7 @@ def _max_advance_flow(ctx: Ctx, c: Collector) -> None:
 
 def _heap_discipline(ctx: Ctx, c: Collector, holder: str, heap: str) -> None:
     n = 0
-    for f2 in ctx.prog.all_functions():
+    for f2 in analysis_units(ctx.prog):
         s2 = summarise(ctx.prog, f2)
         for e in s2.events:
             if e.kind == "store":
@@ -331,7 +331,7 @@ def _init_before_foreign_read(ctx: Ctx, c: Collector) -> None:
                 init.add(e.term[1][2])
     # functions whose SimRunner parameter is passed a loop variable over all simulators somewhere
     foreign_params = set()
-    for fi in ctx.prog.all_functions():
+    for fi in analysis_units(ctx.prog):
         if fi.module.name != "mosaik.scheduler":
             continue
         s = summarise(ctx.prog, fi)
@@ -347,7 +347,7 @@ def _init_before_foreign_read(ctx: Ctx, c: Collector) -> None:
                         foreign_params.add((callee.qualname, p))
     n = 0
     bad = []
-    for fi in ctx.prog.all_functions():
+    for fi in analysis_units(ctx.prog):
         if fi.module.name != "mosaik.scheduler":
             continue
         s = summarise(ctx.prog, fi)
@@ -377,4 +377,29 @@ def _init_before_foreign_read(ctx: Ctx, c: Collector) -> None:
               f"{T.show(b)}.{f} is read for a simulator that may not be the running one, but {f} is only assigned once that simulator's own process has started: "
               "if another process gets here first (e.g. an in-process simulator whose step never suspends) the attribute does not exist (AttributeError)", ctx.loc(fi, e))
     c.ok("INIT", "mosaik.scheduler", "fields read through foreign simulator references are initialised before the processes start", f"{n} foreign field reads, {len(init)} fields initialised early", "")
+    # a clock reading that stands in for "the process has started" must be taken when the processes start:
+    # no suspension between reading the clock and creating the processes (the owner's process takes a fresh
+    # reading when it starts, so an older one makes the wall-clock progress seen by other processes jump
+    # ahead and then fall back)
+    fi = ctx.func("mosaik.scheduler.run")
+    s = summarise(ctx.prog, fi)
+    g = ctx.cfg("mosaik.scheduler.run")
+    spawns = [e for e in s.of_kind("call") if T.contains(e.term, T.glob(SIMPROC))]
+    clocks = [e for e in s.of_kind("store") if e.term[1][0] == "attr" and any(x[0] == "call" and x[1][0] == "glob" and x[1][1].rsplit(".", 1)[-1] in ("perf_counter", "monotonic", "time") for x in T.subterms((e.term[2],)))]
+    pr = []
+    for e in clocks:
+        if not spawns:
+            continue
+        try:
+            sus = g.suspension_between(g.key(e.stmt), g.key(spawns[0].stmt))
+        except KeyError:
+            sus = []
+        if e.idx > spawns[0].idx:
+            pr.append(f"{T.show(e.term[1])} is read off the clock only after the processes have been created")
+        elif sus and not (g.key(e.stmt) in g.loop_body(g.key(e.stmt)) and False):
+            pr.append(f"{T.show(e.term[1])} is read off the clock at line {e.lineno}, but the processes are only created after the await at line(s) {', '.join(str(g.lineno(k)) for k in sus)} "
+                      "(the set-up phase can take arbitrarily long): other processes compute a wall-clock progress from the stale reading until the owner's process resets it, "
+                      "and the progress then falls back (cannot progress backwards)")
+    if clocks:
+        c.add("INIT", "mosaik.scheduler.run", "clock readings are taken when the processes are created", VIOLATED if pr else DISCHARGED, "; ".join(pr), fi.loc)
     c.info["foreign_field_reads"] = n
